@@ -14,6 +14,7 @@ import Cte.Model.Ray
 import Cte.Model.Fshobst
 import Cte.Model.Schedules
 import Cte.Model.Solar
+import Cte.Gen.Schema
 open Cte
 
 def warnKindStr : WarnKind → String
@@ -285,6 +286,18 @@ def opSolar (req : J) : J :=
              ("ray_dir", J.arr [jr r.x, jr r.y, jr r.z]), ("sun", J.arr [jr sv.x, jr sv.y, jr sv.z])]
     | _, _, _, _, _, _, _ => J.null)))]
 
+/-- op `recode`: canonical re-serialisation of a model document along the generated schema -/
+def opRecode (req : J) : J :=
+  match req.get? "json" with
+  | none => J.obj [("error", J.str "no json")]
+  | some j =>
+    match recode Gen.schema Gen.untaggedAlts 64 (.struct "Model") j with
+    | .ok r => J.obj [("ok", J.bool true), ("json", r)]
+    | .error (.missing w) => J.obj [("ok", J.bool false), ("kind", J.str "missing"), ("where", J.str w)]
+    | .error (.shape w) => J.obj [("ok", J.bool false), ("kind", J.str "shape"), ("where", J.str w)]
+    | .error (.noVariant w) => J.obj [("ok", J.bool false), ("kind", J.str "no-variant"), ("where", J.str w)]
+    | .error .fuel => J.obj [("ok", J.bool false), ("kind", J.str "fuel")]
+
 def withModel (req : J) (f : Model → J) : J :=
   match req.get? "model" with
   | none => J.obj [("error", J.str "no model")]
@@ -308,6 +321,7 @@ def handle (line : String) : String :=
       | some (J.str "indicators") => withModel req (opIndicators req)
       | some (J.str "classify") => opClassify req
       | some (J.str "bvh") => opBvh req
+      | some (J.str "recode") => opRecode req
       | some (J.str "solar") => opSolar req
       | some (J.str "fshobst") => opFshobst req
       | some (J.str "raypoly") => opRayPoly req
